@@ -56,6 +56,8 @@ def sklb_case(ctx, rng):
     used = set()
     while len(names) < n:
         x = rng.choice(["j_", "n_", "iv_", ""]) + nm(rng)
+        if rng.random() < 0.08:
+            x += rng.choice(["\u9aa8", "\u00e9", "\u00df\u0130", "\U0001d11e", "\u00ff"])      # names are UTF-8 strings
         if x not in used and x not in ("string", ""):
             used.add(x); names.append(x)
     bones = [(names[i], -1 if i == 0 or rng.random() < 0.1 else rng.randrange(i)) for i in range(n)]
